@@ -125,19 +125,29 @@ type tres struct {
 func (x *explorer) explore(seedName string, seed []uint16, d0, maxDepth int) {
 	r := x.r
 	label := fmt.Sprintf("%s/asMin=%v/seed=%s", x.p.Name, x.asMin, seedName)
-	// the seed must be executable and the property must hold in every state along it,
-	// otherwise it is not a legitimate start state
-	for l := 1; l < len(seed); l++ {
-		if v, _, _, ok := x.run(seed[:l]); !ok || v.class != "" {
-			mc.Fatal("seed %s of profile %s: step %d not executable or violates %s: %s (%s)", seedName, x.p.Name, l, x.prop, v.class, v.msg)
+	// The seed is a fixed event path to a populated start state.  It must be executable;
+	// if the property does not hold along it (it does on the unchanged tree) that is a
+	// violation like any other and there is nothing to explore from this seed.
+	var c0 [20]byte
+	for l := 1; l <= len(seed); l++ {
+		v, c, _, ok := x.run(seed[:l])
+		if !ok {
+			mc.Fatal("seed %s of profile %s: step %d is not executable", seedName, x.p.Name, l)
 		}
+		if v.class != "" {
+			x.notes[x.alpha[seed[l-1]].K+"|VIOLATION:"+v.class]++
+			x.report(seed[:l], v)
+			r.Cases(int64(l))
+			r.AddTransitions(int64(l))
+			return
+		}
+		c0 = c
 	}
-	v0, c0, _, ok := x.run(seed)
-	if !ok || v0.class != "" {
-		mc.Fatal("seed %s of profile %s not executable or violates %s: %s (%s)", seedName, x.p.Name, x.prop, v0.class, v0.msg)
+	if len(seed) == 0 {
+		_, c0, _, _ = x.run(nil)
 	}
 	seen := map[[20]byte]struct{}{c0: {}}
-	var states, transitions int64 = 1, 0
+	var states, transitions, prunedAfterOldClose int64 = 1, 0, 0
 	frontier := [][]uint16{append([]uint16{}, seed...)}
 	depthDone := 0
 	const chunk = 2048
@@ -183,10 +193,21 @@ func (x *explorer) explore(seedName string, seed []uint16, d0, maxDepth int) {
 						continue // no exploration below a violating transition
 					}
 					x.notes[t.kind+"|"+t.v.note]++
+					if t.kind == kOldClose {
+						// The late end of the OLD stream of a server that has already re-connected runs
+						// UnRegisterDataNode on the DataNode object the NEW stream keeps using.  From here
+						// on the handler works on an unlinked node; the immediately visible consequence is
+						// reported above (known finding), what follows is garbage-in and not explored.
+						prunedAfterOldClose++
+						continue
+					}
 					_, known := seen[t.canon]
 					if !known {
 						seen[t.canon] = struct{}{}
 						states++
+						if len(np) >= 3 {
+							r.Sample(fmt.Sprintf("%s depth %d: %s", label, depth+1, t.v.note), map[string]interface{}{"path": x.names(np), "outcome": t.v.note})
+						}
 					}
 					if depth+1 <= d0 || !known {
 						next = append(next, np)
@@ -205,6 +226,7 @@ func (x *explorer) explore(seedName string, seed []uint16, d0, maxDepth int) {
 	r.Add("states:"+label, states)
 	r.Add("transitions:"+label, transitions)
 	r.Add("frontier_left:"+label, int64(len(frontier)))
+	r.Add("not_explored_below_oldclose", prunedAfterOldClose)
 }
 
 func (x *explorer) flushNotes() {
